@@ -229,7 +229,7 @@ def work(job):
 
 def main():
     chk = core.Check(ID)
-    n = chk.scale(6000, 300000)
+    n = chk.scale(20000, 500000)
     chk.rule = ('edit script i = f(VERIF_SEED, i): 1-5 top-level nodes, nesting <= 3 inside additions/deletions/highlights, substitutions and comments with text payloads '
                 '(incl. empty, escaped braces, line and paragraph breaks, multi-byte), stray markers only of types that have no pair in the document; cases whose '
                 'serialisation or expectation contains an unintended marker are discarded and counted; whole-string, idempotence, sub-range over whole top-level nodes, '
